@@ -10,6 +10,13 @@ Enumerated completely:
     and through the public pipelines on patterns whose centre of mass is exactly planar;
   * shift_origin_to for EVERY integer origin of the detector (uniform and per-pattern) x every batch size x both
     interpolation modes.
+  * detector shapes with large prime factors and powers of two ({13,16,17,26} x {8,13}, both ways) for all shift parts;
+    ptycho_utils.shift_array for every integer shift; "integer fitted origin -> circular roll" through BOTH classes (dataset
+    model: public preprocess on patterns whose centre of mass is exactly integer, read back through centered_amplitudes /
+    centered_intensities);
+  * call histories: every single call / ordered pair (thorough: triple) of calculate_origin, shift_origin_to (corner and
+    other targets), fit_origin_background and preprocess on models sharing a detector shape, modules re-imported before each
+    history, the LAST call judged ("a result must not depend on earlier calls"), inputs bit-identical afterwards.
 Oracle: float64 weighted means in (row, column) order; np.roll.
 """
 from __future__ import annotations
@@ -32,7 +39,9 @@ CLAIM = (
     "read back through com_measured / com_fit, return the float64 intensity-weighted mean (row, then column) to 1e-4 px and agree "
     "with each other; origins lying exactly on a plane or constant (integer/half-integer coefficient grid, and data whose centre of "
     "mass is exactly planar) are returned by fit_origin and fit_origin_background to 1e-4; shift_origin_to equals np.roll of each "
-    "pattern for every integer origin of the detector, uniform or per pattern, at every batch size. Exploration is the right level: "
+    "pattern for every integer origin of the detector, uniform or per pattern, at every batch size, also on detector lengths "
+    "with large prime factors; the dataset model's centred amplitudes/intensities for integer fitted origins equal the same roll "
+    "and agree with the origin model; no result depends on earlier calls (call histories on freshly imported modules). Exploration is the right level: "
     "the only schedule freedom is the batch size and it is enumerated completely; everything else is a configuration lattice."
 )
 NOTE = (
@@ -46,7 +55,9 @@ RULE = (
     "plane coefficients on {-1,-.5,0,.5,1}^2 x {0,2.5,3}, constants on {0,.5,2.5,3,7}^2; every integer origin x "
     "{uniform, per-pattern} x batch size x {bilinear, nearest}. A centre-of-mass point is non-trivial when the batch size "
     "actually splits the set or the row and column centres differ by > 0.05 px (a swap would show); a shift point when the roll is "
-    "not the identity; distinct = distinct (configuration, batch size, path)."
+    "not the identity; distinct = distinct (configuration, batch size, path). Shift parts also on detectors {13,16,17,26}x{8,13} "
+    "both ways (scan (2,3)); shift_array: every integer shift x 2 branches; integer-origin roll: scans x detectors x 3 origin/fit "
+    "kinds x both classes x (vectorized, bilinear); call histories: all singles and ordered pairs (thorough: triples) over 20 calls."
 )
 
 # ----------------------------------------------------------------------------- tolerances
@@ -513,6 +524,370 @@ def eval_shift(case):
     return t
 
 
+# ----------------------------------------------------------------------------- detector sizes with large prime factors
+# Lengths whose FFT is "awkward" (13, 17, 26 = 2 x 13) and a power of two, crossed with 8 and 13, non-square both ways: a shift
+# that is only periodic for 7-smooth lengths, or a normalisation that mixes H and W, cannot hide here. Used by the shift parts.
+DETS_BIG = sorted({(a, b) for a in (13, 16, 17, 26) for b in (8, 13)} | {(b, a) for a in (13, 16, 17, 26) for b in (8, 13)})
+BIG_SCAN = (2, 3)
+# Fourier / bilinear shift of the dataset model at (numerically) integer origins, relative to the pattern maximum: worst observed
+# 8.0e-7 (the data of these parts do not depend on the seed); a shift that is not periodic changes a pattern by the order of its maximum (> 1e-2).
+TOL_DSHIFT = 1e-4
+
+
+def run_preprocess_obj(arr, vectorized, fit_function, bilinear, have_vec=True):
+    from quantem.diffractive_imaging.dataset_models import PtychographyDatasetRaster
+
+    p = PtychographyDatasetRaster.from_dataset4dstem(make_ds(arr), verbose=0)
+    kw = dict(com_fit_function=fit_function, force_com_rotation=0.0, force_com_transpose=False, plot_rotation=False, plot_com=False, obj_padding_px=(8, 8), bilinear=bilinear)
+    if have_vec:
+        kw["vectorized"] = vectorized
+    with warnings.catch_warnings():
+        warnings.simplefilter("ignore")
+        p.preprocess(**kw)
+    return p
+
+
+# ----------------------------------------------------------------------------- part 4: ptycho_utils.shift_array, every integer shift
+def shift_array_case(case, verbose=False):
+    """case = {det, seed}: shift_array(pattern, r, c) for every integer (r, c) with |r| < H, |c| < W, Fourier and bilinear branch."""
+    from quantem.diffractive_imaging.ptycho_utils import shift_array
+
+    det = tuple(case["det"])
+    H, W = det
+    ar = np.sqrt(make_data((1, 1), det, "ramp", case["seed"])[0, 0])  # an amplitude, as preprocess passes it
+    snap = ar.copy()
+    fails, points = [], []
+    rows = [case["row"]] if "row" in case else range(-H + 1, H)
+    for r in rows:
+        for c in ([case["col"]] if "col" in case else range(-W + 1, W)):
+            ref = np.roll(ar.astype(np.float64), (r, c), axis=(0, 1))
+            for bil in (False, True):
+                try:
+                    got = np.asarray(shift_array(ar, r, c, bilinear=bil), dtype=np.float64)
+                    d = float(np.max(np.abs(got - ref))) / float(ref.max()) if got.shape == ref.shape else float("inf")
+                except Exception as e:
+                    d = float("inf")
+                    got = repr(e)
+                if not (d <= TOL_DSHIFT):
+                    fails.append(({"relation": "shift_array_integer_shift_equals_roll", "path": f"shift_array(bilinear={bil})"}, {"part": "shift_array", "det": list(det), "row": r, "col": c, "seed": case["seed"]}, f"shift_array(pattern {det}, {r}, {c}, bilinear={bil}) differs from np.roll by {d:.3e} of the pattern maximum" + (f"; worst row {int(np.argmax(np.abs(got - ref).max(1)))} got {np.round(got[int(np.argmax(np.abs(got - ref).max(1)))], 4).tolist()}, expected {np.round(ref[int(np.argmax(np.abs(got - ref).max(1)))], 4).tolist()}" if isinstance(got, np.ndarray) and got.shape == ref.shape else f" ({got if isinstance(got, str) else got.shape})")))
+                if verbose:
+                    print(f"    shift_array({r}, {c}, bilinear={bil}) deviation {d:.3e}")
+                points.append(([r, c, bil], (r % H, c % W) != (0, 0)))
+    if not np.array_equal(ar, snap):
+        fails.append(({"relation": "inputs_unmodified", "path": "shift_array"}, {"part": "shift_array", "det": list(det), "seed": case["seed"]}, f"shift_array modified the array it was given (detector {det})"))
+    return _tag(fails), points
+
+
+def eval_shift_array(case):
+    t = Tally()
+    fails, points = shift_array_case(case)
+    for key, nontriv in points:
+        t.case(key=[case["det"]] + key, nontrivial=nontriv, outcome=None)
+    for cls, sub, msg in fails:
+        t.fail(cls, sub, msg)
+    t.extra["shift_array_calls"] += len(points)
+    return t
+
+
+# ----------------------------------------------------------------------------- part 5: integer fitted origin -> circular roll, both classes
+ICOM_KERNEL = np.array([[1.0, 2.0, 1.0], [3.0, 8.0, 3.0], [1.0, 2.0, 1.0]])  # point-symmetric, anisotropic in (row, column)
+
+
+def integer_origins(scan, kind):
+    x, y = np.meshgrid(np.arange(scan[0]), np.arange(scan[1]), indexing="ij")
+    if kind == "constant":
+        return np.full(scan, 2), np.full(scan, 3)
+    return 1 + x + y, 1 + y + (scan[0] - 1 - x)
+
+
+def intorigin_fits(scan, det, kind):
+    """the 3x3 blob around every integer origin must lie inside the detector"""
+    pr, pc = integer_origins(scan, kind)
+    return pr.min() >= 1 and pc.min() >= 1 and pr.max() <= det[0] - 2 and pc.max() <= det[1] - 2
+
+
+def integer_com_data(scan, det, kind):
+    """Positive float32 patterns whose centre of mass is EXACTLY the integer pixel p(x, y): flat background 1/64, a point-symmetric
+    3x3 blob at p, and one extra weight per axis next to p that cancels the moment of the background (all dyadic, exact in float32)."""
+    H, W = det
+    pr, pc = integer_origins(scan, kind)
+    b = 1.0 / 64.0
+    arr = np.full((*scan, H, W), b)
+    for ix in np.ndindex(*scan):
+        r0, c0 = int(pr[ix]), int(pc[ix])
+        k = 1.0 + 0.25 * (ix[0] * scan[1] + ix[1])
+        arr[ix][r0 - 1 : r0 + 2, c0 - 1 : c0 + 2] += k * ICOM_KERNEL
+        mr = b * H * W * (r0 - (H - 1) / 2)  # moment the background lacks about p, rows
+        mc = b * H * W * (c0 - (W - 1) / 2)
+        if mr:
+            arr[ix][r0 + (1 if mr > 0 else -1), c0] += abs(mr)
+        if mc:
+            arr[ix][r0, c0 + (1 if mc > 0 else -1)] += abs(mc)
+    arr = np.ascontiguousarray(arr.astype(np.float32))
+    er, ec = oracle_com(arr, None)
+    if float(np.max(np.abs(er - pr))) > 1e-9 or float(np.max(np.abs(ec - pc))) > 1e-9 or arr.min() <= 0:
+        raise Broken(f"integer-origin data builder is wrong for scan {scan} det {det} {kind}: centre of mass off by {float(np.max(np.abs(er - pr))):.2e}/{float(np.max(np.abs(ec - pc))):.2e}")
+    return arr, pr, pc
+
+
+def intorigin_case(case, verbose=False):
+    """case = {scan, det, origins: constant|planar, fit: plane|constant}: both classes, all (vectorized, bilinear) variants."""
+    from quantem.diffractive_imaging.origin_models import CenterOfMassOriginModel
+
+    scan, det, kind, fit = tuple(case["scan"]), tuple(case["det"]), case["origins"], case["fit"]
+    sm = seams()
+    N = scan[0] * scan[1]
+    arr, pr, pc = integer_com_data(scan, det, kind)
+    flat = arr.reshape(N, *det).astype(np.float64)
+    P = np.stack([pr.ravel(), pc.ravel()], -1)
+    roll_int = np.stack([np.roll(flat[k], (-int(P[k, 0]), -int(P[k, 1])), axis=(0, 1)) for k in range(N)])
+    roll_amp = np.stack([np.roll(np.sqrt(flat[k]), (-int(P[k, 0]), -int(P[k, 1])), axis=(0, 1)) for k in range(N)])
+    degenerate = 1 in scan
+    fails, points = [], []
+    base = {"part": "intorigin", "scan": list(scan), "det": list(det), "origins": kind, "fit": fit}
+    rel_fit = "plane_fit_returns_plane" if fit == "plane" else "constant_fit_returns_constant"
+
+    def fail(cls, extra, msg):
+        fails.append((cls, dict(base, **extra), msg))
+
+    # direct-ptychography origin model
+    om_shift = None
+    try:
+        om = CenterOfMassOriginModel.from_dataset(make_ds(arr))
+        om.calculate_origin(None)
+        om.fit_origin_background(fit_method=fit)
+        of = om.origin_fitted.detach().cpu().numpy().astype(np.float64)
+        dfit = float(np.max(np.abs(of - P))) if np.all(np.isfinite(of)) else float("inf")
+        if not (dfit <= TOL_FIT):
+            fail({"relation": rel_fit, "path": "fit_origin_background", "scan_has_axis_of_length_1": degenerate, "via": "calculate_origin"}, {"path": "fit_origin_background"}, f"calculate_origin + fit_origin_background({fit!r}) on exactly integer {kind} origins: fitted origins off by {dfit:.3e} px (scan {scan} det {det})")
+        else:
+            # diagnostic only (not a verdict): with the fitted origins as returned (integer to ~1e-5, float32 PCA) the row/column
+            # that wraps around is interpolated against the zero padding instead of the opposite edge -> counted, reported
+            om.shift_origin_to((0, 0))
+            raw = om.shifted_tensor.detach().cpu().numpy().astype(np.float64).reshape(N, *det)
+            if float(np.max(np.abs(raw - roll_int))) / float(roll_int.max()) > TOL_DSHIFT:
+                points.append((["om_unrounded_fitted_origin_loses_wrapped_pixels"], False))
+            # the property's clause: an INTEGER-valued fitted origin (the fitted values are within TOL_FIT of these integers)
+            om.origin_fitted = torch.tensor(P, dtype=torch.float32)
+            om.shift_origin_to((0, 0))
+            om_shift = om.shifted_tensor.detach().cpu().numpy().astype(np.float64).reshape(N, *det)
+            d = float(np.max(np.abs(om_shift - roll_int))) / float(roll_int.max())
+            if not (d <= TOL_DSHIFT):
+                fail({"relation": "integer_fitted_origin_shift_equals_roll", "path": "CenterOfMassOriginModel.shift_origin_to"}, {"path": "origin_model"}, f"calculate_origin + fit_origin_background({fit!r}) + shift_origin_to((0,0)) on integer {kind} origins differs from np.roll by {d:.3e} of the maximum (scan {scan} det {det})")
+            if verbose:
+                print(f"    origin model: fitted origins off by {dfit:.3e} px, shifted patterns vs roll {d:.3e}")
+            points.append((["om"], True))
+    except Exception as e:
+        fail({"relation": "path_runs", "path": "CenterOfMassOriginModel"}, {"path": "origin_model"}, f"origin model pipeline raised {type(e).__name__}: {str(e)[:200]} (scan {scan} det {det})")
+    # ptychography dataset model, read back through the public centred amplitudes / intensities
+    for vec, bil in itertools.product((True, False) if sm["preprocess_vectorized"] else (True,), (False, True)):
+        tagp = f"preprocess(vectorized={vec}, bilinear={bil})"
+        try:
+            p = run_preprocess_obj(arr, vec, fit, bil, sm["preprocess_vectorized"])
+            cf = np.asarray(p.com_fit, dtype=np.float64)
+            ca = p.centered_amplitudes.detach().cpu().numpy().astype(np.float64)
+            ci = p.centered_intensities.detach().cpu().numpy().astype(np.float64)
+        except Exception as e:
+            fail({"relation": "path_runs", "path": tagp}, {"path": tagp}, f"{tagp} raised {type(e).__name__}: {str(e)[:200]} (scan {scan} det {det})")
+            continue
+        dfit = float(np.max(np.abs(cf - np.stack([pr, pc])))) if np.all(np.isfinite(cf)) else float("inf")
+        if not (dfit <= TOL_FIT):
+            fail({"relation": rel_fit, "path": "preprocess.com_fit", "scan_has_axis_of_length_1": degenerate}, {"path": tagp}, f"{tagp}.com_fit[{fit}] on exactly integer {kind} origins is off by {dfit:.3e} px (scan {scan} det {det})")
+            continue
+        ca_u = np.fft.ifftshift(ca, axes=(-2, -1))  # the library centres the corner-shifted pattern with fftshift
+        ci_u = np.fft.ifftshift(ci, axes=(-2, -1))
+        da = float(np.max(np.abs(ca_u - roll_amp))) / float(roll_amp.max())
+        di = float(np.max(np.abs(ci_u - roll_int))) / float(roll_int.max())
+        if not (da <= TOL_DSHIFT) or not (di <= TOL_DSHIFT):
+            k = int(np.argmax(np.abs(ca_u - roll_amp).reshape(N, -1).max(1)))
+            fail({"relation": "integer_fitted_origin_shift_equals_roll", "path": f"preprocess(bilinear={bil}).centered_amplitudes"}, {"path": tagp}, f"{tagp} with com_fit_function={fit!r} on integer {kind} origins: centered_amplitudes / centered_intensities differ from the circular roll by {da:.3e} / {di:.3e} of the maximum (scan {scan} det {det}); pattern {k} origin {P[k].tolist()}: first row got {np.round(ca_u[k, 0], 4).tolist()}, expected {np.round(roll_amp[k, 0], 4).tolist()}")
+        if om_shift is not None:
+            dd = float(np.max(np.abs(ci_u - om_shift))) / float(roll_int.max())
+            if not (dd <= 2 * TOL_DSHIFT):
+                fail({"relation": "classes_agree_on_shifted_patterns", "path": tagp}, {"path": tagp}, f"{tagp}.centered_intensities and CenterOfMassOriginModel.shifted_tensor disagree by {dd:.3e} of the maximum on integer {kind} origins (scan {scan} det {det})")
+        if verbose:
+            print(f"    {tagp}: com_fit off by {dfit:.3e} px, amplitudes vs roll {da:.3e}, intensities vs roll {di:.3e}")
+        points.append((["ds", vec, bil], True))
+    return _tag(fails), points
+
+
+def eval_intorigin(case):
+    t = Tally()
+    fails, points = intorigin_case(case)
+    for key, nontriv in points:
+        t.case(key=[case["scan"], case["det"], case["origins"], case["fit"]] + key, nontrivial=nontriv, outcome=None)
+    for cls, sub, msg in fails:
+        t.fail(cls, sub, msg)
+    t.extra["integer_origin_pipelines"] += len(points)
+    t.extra["origin_model_unrounded_fitted_origin_loses_wrapped_pixels"] += sum(1 for k, _ in points if k[0].startswith("om_unrounded"))
+    if tuple(case["det"]) == (13, 8) and case["origins"] == "planar":
+        t.sample({"integer_origin_roll": [case["scan"], case["det"], case["origins"], case["fit"]], "pipelines": len(points)}, cap=1)
+    return t
+
+
+# ----------------------------------------------------------------------------- part 6: call histories
+# "A result must not depend on earlier calls": every single call and ordered pair (thorough: triple) of calls on models that
+# share one detector shape (and a second shape as control); the three modules are re-imported before each history, so a
+# failure names the shortest history; the LAST call is judged by the usual float64 oracle, and the data handed to the models
+# must be bit-identical afterwards.
+HIST_MODULES = ["quantem.diffractive_imaging.ptycho_utils", "quantem.diffractive_imaging.origin_models", "quantem.diffractive_imaging.dataset_models"]
+HIST_DETS = {"d1": (6, 8), "d2": (7, 7)}
+HIST_SCAN = (2, 3)
+
+
+def _reload_modules():
+    import importlib
+    import sys
+
+    for name in HIST_MODULES:
+        mod = sys.modules.get(name) or importlib.import_module(name)
+        importlib.reload(mod)
+
+
+def hist_calls():
+    calls = []
+    for m in ("A", "B"):
+        calls += [["calc", "d1", m, None], ["calc", "d1", m, 4]]
+        calls += [["shift", "d1", m, [0, 0], "bilinear"], ["shift", "d1", m, [2, 3], "bilinear"], ["shift", "d1", m, [1, 0], "bilinear"], ["shift", "d1", m, [2, 3], "nearest"]]
+    calls += [["fitbg", "d1", "A", "plane"], ["fitbg", "d1", "A", "constant"], ["prep", "d1", True], ["prep", "d1", False]]
+    calls += [["calc", "d2", "A", None], ["shift", "d2", "A", [0, 0], "bilinear"], ["shift", "d2", "A", [2, 3], "bilinear"], ["prep", "d2", True]]
+    return calls
+
+
+def _judged(call):
+    """a shift to a target other than the corner is outside the property: it only ever appears as an EARLIER call"""
+    return not (call[0] == "shift" and call[3] != [0, 0])
+
+
+def _hist_data(det, model, seed):
+    return make_data(HIST_SCAN, HIST_DETS[det], "ramp" if model == "A" else "seeded", seed)
+
+
+def do_call(state, call, seed, check):
+    """Execute one call; with check=True return (deviation / tolerance, detail)."""
+    from quantem.diffractive_imaging.origin_models import CenterOfMassOriginModel
+
+    kind, det = call[0], call[1]
+    H, W = HIST_DETS[det]
+    N = HIST_SCAN[0] * HIST_SCAN[1]
+    if kind == "prep":
+        arr = _hist_data(det, "A", seed)
+        src = arr.copy()
+        cm, cf = run_preprocess(src, call[2], "none", seams()["preprocess_vectorized"])
+        if not np.array_equal(src, arr):
+            state["modified"].append("preprocess modified the array it was given")
+        if not check:
+            return None
+        er, ec = oracle_com(arr, None)
+        d = max(float(np.max(np.abs(cm[0] - er))), float(np.max(np.abs(cm[1] - ec))))
+        return d / TOL_COM, f"com_measured deviates from the float64 weighted mean by {d:.3e} px"
+    model = call[2]
+    key = (det, model)
+    if key not in state["models"]:
+        arr = _hist_data(det, model, seed)
+        state["models"][key] = (CenterOfMassOriginModel.from_dataset(make_ds(arr)), arr)
+    om, arr = state["models"][key]
+    flat = arr.reshape(N, H, W)
+    try:
+        if kind == "calc":
+            om.calculate_origin(call[3])
+            if not check:
+                return None
+            o = om.origin_measured.detach().cpu().numpy().astype(np.float64).reshape(*HIST_SCAN, 2)
+            er, ec = oracle_com(arr, None)
+            d = max(float(np.max(np.abs(o[..., 0] - er))), float(np.max(np.abs(o[..., 1] - ec))))
+            return d / TOL_COM, f"origin_measured deviates from the float64 weighted mean by {d:.3e} px (first pattern got {o[0, 0].round(4).tolist()}, expected {[round(float(er[0, 0]), 4), round(float(ec[0, 0]), 4)]})"
+        if kind == "shift":
+            kk = np.arange(N)
+            org = np.stack([(1 + kk) % H, (2 + 2 * kk) % W], -1)
+            given = torch.tensor(org, dtype=torch.float32)
+            snap = given.clone()
+            om.origin_fitted = given
+            om.shift_origin_to(tuple(call[3]), mode=call[4])
+            if not torch.equal(given, snap):
+                state["modified"].append("shift_origin_to modified the origins it was given")
+            if not check:
+                return None
+            s = om.shifted_tensor.detach().cpu().numpy().astype(np.float64).reshape(N, H, W)
+            ref = np.stack([np.roll(flat[k].astype(np.float64), (-int(org[k, 0]), -int(org[k, 1])), axis=(0, 1)) for k in range(N)])
+            d = float(np.max(np.abs(s - ref))) / float(ref.max())
+            return d / TOL_SHIFT, f"shift to the corner differs from np.roll by {d:.3e} of the maximum"
+        if kind == "fitbg":
+            x, y = np.meshgrid(np.arange(HIST_SCAN[0]), np.arange(HIST_SCAN[1]), indexing="ij")
+            if call[3] == "plane":
+                want = np.stack([2 + 0.5 * x - 0.5 * y, 3 - 1.0 * x + 0.5 * y], -1).reshape(-1, 2)
+            else:
+                want = np.stack([2.5 + 0 * x, 3.0 + 0 * y], -1).reshape(-1, 2).astype(np.float64)
+            om.origin_measured = torch.tensor(want, dtype=torch.float32)
+            om.fit_origin_background(fit_method=call[3])
+            if not check:
+                return None
+            of = om.origin_fitted.detach().cpu().numpy().astype(np.float64)
+            d = float(np.max(np.abs(of - want))) if np.all(np.isfinite(of)) else float("inf")
+            return d / TOL_FIT, f"origins exactly on a {call[3]} come back off by {d:.3e}"
+    finally:
+        if not np.array_equal(om.tensor.detach().cpu().numpy(), arr) or not np.array_equal(np.asarray(om.dataset.array), arr):
+            state["modified"].append(f"{kind} modified the data of its model")
+    raise ValueError(call)
+
+
+def run_history(hist, seed, verbose=False):
+    _reload_modules()
+    state = {"models": {}, "modified": []}
+    for c in hist[:-1]:
+        do_call(state, c, seed, check=False)
+    ratio, detail = do_call(state, hist[-1], seed, check=True)
+    if verbose:
+        print(f"    history {hist[:-1]} -> last call {hist[-1]}: deviation / tolerance = {ratio:.3e}  ({detail})")
+    return ratio, detail, state["modified"]
+
+
+def eval_history(item, seed=0, depth=2):
+    t = Tally()
+    calls = hist_calls()
+    lasts = [c for c in calls if _judged(c)]
+    first = list(item)
+    tails = ([[]] if _judged(first) else []) + [[c] for c in lasts]
+    if depth >= 3:
+        tails += [[m, c] for m in calls[::3] for c in lasts]
+    alone = {}
+    try:
+        for tail in tails:
+            hist = [first] + tail
+            case = {"part": "history", "history": hist, "seed": seed}
+            last = hist[-1]
+            try:
+                ratio, detail, modified = run_history(hist, seed)
+            except Exception as e:
+                t.case(key=hist, nontrivial=True, outcome="raised")
+                t.fail({"relation": "history_runs", "last_call": last[0]}, dict(case, relation="history_runs", cls_path=None), f"history {hist}: raised {type(e).__name__}: {str(e)[:200]}")
+                continue
+            t.case(key=hist, nontrivial=len(hist) > 1, outcome=None)
+            t.extra["histories"] += 1
+            t.extra["histories_with_an_earlier_non_corner_shift_on_the_same_detector"] += int(any(c[0] == "shift" and c[3] != [0, 0] and c[1] == last[1] for c in hist[:-1]))
+            if modified:
+                t.fail({"relation": "inputs_unmodified", "last_call": last[0]}, dict(case, relation="inputs_unmodified", cls_path=None), f"history {hist}: {modified[0]}")
+            if not (ratio <= 1.0):
+                if len(hist) == 1:
+                    t.fail({"relation": "call_alone_matches_oracle", "last_call": last[0]}, dict(case, relation="call_alone_matches_oracle", cls_path=None), f"the single call {last} on freshly imported modules: {detail} ({ratio:.3e} x tolerance)")
+                    continue
+                kl = repr(last)
+                if kl not in alone:
+                    try:
+                        alone[kl] = run_history([last], seed)[0]
+                    except Exception:
+                        alone[kl] = float("inf")
+                if not (alone[kl] <= 1.0):
+                    t.extra["histories_whose_last_call_fails_alone"] += 1
+                    continue
+                t.fail({"relation": "result_independent_of_earlier_calls", "last_call": last[0]}, dict(case, relation="result_independent_of_earlier_calls", cls_path=None), f"after the calls {hist[:-1]} the call {last}: {detail} ({ratio:.3e} x tolerance); alone on freshly imported modules it agrees ({alone[kl]:.1e} x tolerance)")
+            elif len(hist) == 2 and hist[0] == ["shift", "d1", "A", [2, 3], "bilinear"] and last == ["calc", "d1", "B", None]:
+                t.sample({"history": hist, "deviation_over_tolerance": ratio}, cap=1)
+    finally:
+        _reload_modules()
+    return t
+
+
 # ----------------------------------------------------------------------------- run / replay
 def run(ctx):
     warnings.simplefilter("ignore")
@@ -527,6 +902,8 @@ def run(ctx):
         "data alphabet: deterministic asymmetric ramps, seeded positive noise with a row tilt, blobs on a flat background whose centre of mass is exactly planar in the scan position; VERIF_SEED fills the seeded members",
         "preprocess is run with force_com_rotation=0, force_com_transpose=False, no plots, obj_padding_px=(8,8) (tiny problems need padding); these do not enter the centre of mass",
         "a plane through a scan with an axis of length 1 is not unique, but its values at the scan positions are; such scans stay in the lattice",
+        "integer fitted origin -> roll: the origin model is judged with the fitted origins rounded to the integers they equal within 1e-4 (shift_origin_to is exact only for bit-exact integers: for an origin such as 2.99999 the wrapped row is interpolated against zero padding; counted in count_origin_model_unrounded_fitted_origin_loses_wrapped_pixels, not a verdict); the dataset model is judged with its own fitted origins",
+        "a shift_origin_to call with a target other than the corner is outside the property and only appears as an EARLIER call of a history",
     )
 
     def once():
@@ -557,7 +934,30 @@ def run(ctx):
         for s, d, v in itertools.product(scans, dets, ["uniform", "per_pattern"])
         for r in range(d[0])
     ]
+    shift_items += [
+        {"part": "shift", "scan": list(BIG_SCAN), "det": list(d), "variant": v, "origin_row": r, "seed": ctx.seed}
+        for d, v in itertools.product(DETS_BIG, ["uniform", "per_pattern"])
+        for r in range(d[0])
+    ]
     mC = ctx.pmap(eval_shift, shift_items, chunk=1, label="shift")
+    # ptycho_utils.shift_array: every integer shift, Fourier and bilinear branch, small and large-prime detector lengths
+    sa_dets = list(dets) + DETS_BIG
+    mD = ctx.pmap(eval_shift_array, [{"part": "shift_array", "det": list(d), "seed": ctx.seed} for d in sa_dets], chunk=1, label="shift_array")
+    # integer fitted origin -> circular roll through BOTH classes (dataset model read back through centered_amplitudes/intensities)
+    io_scans = [(2, 3), (3, 2)] + ([] if ctx.quick else [(3, 3)])
+    io_items = [
+        {"part": "intorigin", "scan": list(sc), "det": list(d), "origins": k, "fit": f}
+        for sc, d, (k, f) in itertools.product(io_scans, sa_dets, [("constant", "constant"), ("constant", "plane"), ("planar", "plane")])
+        if intorigin_fits(sc, d, k)
+    ]
+    mE = ctx.pmap(eval_intorigin, io_items, chunk=1, label="integer origin -> roll, both classes")
+    # call histories on freshly imported modules
+    depth = 2 if ctx.quick else 3
+    mF = ctx.pmap(eval_history, hist_calls(), chunk=1, label="call histories", seed=ctx.seed, depth=depth)
+    if mF.extra["histories_with_an_earlier_non_corner_shift_on_the_same_detector"] < 50:
+        raise Broken(f"history alphabet degenerate: {mF.extra['histories_with_an_earlier_non_corner_shift_on_the_same_detector']} histories with an earlier non-corner shift")
+    if mE.n < 4 * len(io_items):
+        raise Broken(f"integer-origin part degenerate: {mE.n} pipelines for {len(io_items)} configurations")
     ctx.coverage.update(
         exhaustive=True,
         alphabet={
@@ -571,11 +971,19 @@ def run(ctx):
             "plane_coefficients": {"slopes": PLANE_SLOPES, "offsets": PLANE_OFFSETS, "constants_row_x_column": CONSTANTS},
             "fit_paths": ["ptycho_utils.fit_origin(mask=all true)", "CenterOfMassOriginModel.fit_origin_background", "preprocess(com_fit_function).com_fit", "calculate_origin + fit_origin_background"],
             "shift": "every integer origin of the detector x {uniform, per-pattern} x every batch size x {bilinear, nearest}",
+            "detector_shapes_large_prime_factors": [list(d) for d in DETS_BIG],
+            "shift_array": "every integer shift |r|<H, |c|<W x {Fourier, bilinear} on all detector shapes",
+            "integer_origin_roll": {"scans": [list(x) for x in io_scans], "origins_x_fit": ["constant/constant", "constant/plane", "planar/plane"], "paths": ["calculate_origin+fit_origin_background+shift_origin_to", "preprocess(vectorized, bilinear).centered_amplitudes/centered_intensities"]},
+            "call_history": {"calls": hist_calls(), "histories": "every single call and ordered pair" + ("" if ctx.quick else ", every triple (middle call: every 3rd member)") + "; ptycho_utils/origin_models/dataset_models re-imported before each history; last call judged"},
         },
-        bounds={"tolerance_com_px": TOL_COM, "tolerance_fit": TOL_FIT, "tolerance_shift_relative": TOL_SHIFT, "nearest_mode": "exact"},
+        bounds={"tolerance_com_px": TOL_COM, "tolerance_fit": TOL_FIT, "tolerance_shift_relative": TOL_SHIFT, "tolerance_dataset_shift_relative": TOL_DSHIFT, "nearest_mode": "exact"},
         com_points=int(mA.n),
         fit_cases=int(mB.n),
         shift_calls=int(mC.n),
+        shift_array_calls=int(mD.n),
+        integer_origin_pipelines=int(mE.n),
+        call_histories=int(mF.n),
+        call_history_depth=depth,
     )
     if mA.extra["com_configurations_swap_visible"] < 0.9 * mA.extra["com_configurations"]:
         raise Broken(f"data alphabet too symmetric: a row/column swap would be visible in only {mA.extra['com_configurations_swap_visible']} of {mA.extra['com_configurations']} configurations")
@@ -594,6 +1002,23 @@ def replay(ctx, case):
         fails, outs = fit_case(case, verbose=True)
     elif part == "shift":
         fails, _ = shift_case(case, verbose=True)
+    elif part == "shift_array":
+        fails, _ = shift_array_case(case, verbose=True)
+    elif part == "intorigin":
+        fails, _ = intorigin_case(case, verbose=True)
+    elif part == "history":
+        hist = case["history"]
+        fails = []
+        try:
+            ratio, detail, modified = run_history(hist, case.get("seed", 0), verbose=True)
+            if len(hist) > 1:
+                run_history(hist[-1:], case.get("seed", 0), verbose=True)
+        finally:
+            _reload_modules()
+        if modified and case.get("relation") == "inputs_unmodified":
+            ctx.fail({"relation": "inputs_unmodified", "last_call": hist[-1][0]}, case, f"history {hist}: {modified[0]}")
+        if not (ratio <= 1.0) and case.get("relation") != "inputs_unmodified":
+            ctx.fail({"relation": case.get("relation", "result_independent_of_earlier_calls"), "last_call": hist[-1][0]}, case, f"after the calls {hist[:-1]} the call {hist[-1]}: {detail} ({ratio:.3e} x tolerance)")
     else:
         print(f"  configuration: scan {case['scan']} det {case['det']} mask {case['mask']} data {case['kind']} (all paths and batch sizes re-run)")
         fails, _, _ = com_case(case, verbose=True)
